@@ -93,20 +93,28 @@ func q06Directed(t *testing.T, r *Rec, fx *q06Fix) {
 		c.opSign(id, 0, 4*e, e, "c")
 		c.track()
 	})
-	// FINDING (queue message): the collision rule of AddExternalChainInfo compares address strings and
-	// key bytes verbatim while the signature check uses BytesToAddress(key): validator B registers
-	// validator A's account under another spelling and replays A's signature.
+	// REGRESSION GUARD for 23185e9f (was a finding): the collision rule of AddExternalChainInfo compares
+	// address strings and key bytes verbatim while the signature check used BytesToAddress(key): validator
+	// B registers validator A's account under another spelling and replays A's signature.  Since the
+	// repair only the canonical 20-byte key bytes verify: the replay must end in `badsig`.
 	fx.directed(r, "alias_key_replay", func(c *q06Case) {
 		id := c.opPut("s", 1, fx.valID[2], 12, true)
 		c.opSign(id, 0, 4, 1, "c")
 		c.track()
 		c.opReg(1, []q06Acct{{chain: 0, addr: 4 + 1, raw: 4 + 1}}) // lower-case address, zero-padded key bytes of A's account
 		c.track()
-		c.opSign(id, 1, 4+1, 1, "c") // byte-identical to A's signature (RFC 6979)
+		if res := c.opSign(id, 1, 4+1, 1, "c"); res != "badsig" { // byte-identical to A's signature (RFC 6979)
+			c.hit("key_once_per_item_account", "alias registration + replayed signature was accepted: "+res)
+		}
+		c.track()
+		// the three-byte-longer and the 32-byte spelling likewise
+		c.opReg(3, []q06Acct{{chain: 0, addr: 4 + 2, raw: 4 + 2}})
+		c.opSign(id, 3, 4+2, 1, "c")
 		c.track()
 	})
-	// FINDING (bridge batch): confirms are unique per orchestrator only; once A rotates its key, B can
-	// register A's former address and replay A's confirmation.
+	// REGRESSION GUARD for db2aad4e (was a finding): confirms were unique per orchestrator only; once A
+	// rotates its key, B can register A's former address and replay A's confirmation.  Since the repair
+	// the replay must end in `dupkey`.
 	fx.directed(r, "batch_key_takeover", func(c *q06Case) {
 		n := c.opBatchPut(4 * 3)
 		c.track()
@@ -116,7 +124,9 @@ func q06Directed(t *testing.T, r *Rec, fx *q06Fix) {
 		c.opReg(0, []q06Acct{{chain: 0, addr: 4 * e, raw: 4 * e}})
 		c.opReg(1, []q06Acct{{chain: 0, addr: 4, raw: 4}})
 		c.track()
-		c.opBatchConfirm(n, 1, 4, 1, "c")
+		if res := c.opBatchConfirm(n, 1, 4, 1, "c"); res != "dupkey" {
+			c.hit("batch_key_once_per_item", "replayed confirmation of a taken-over key was accepted: "+res)
+		}
 		c.track()
 		c.opBatchGas(n, 21000) // re-issue: all confirms go
 		c.track()
@@ -208,13 +218,19 @@ func q14Directed(t *testing.T, r *Rec, fx *q06Fix) {
 		c.opRelay()
 		_, _ = a, b
 	})
-	// FINDING: the per-sender filter only looks at SubmitLogicCall; UploadUserSmartContract messages
-	// carry the same fee-paying sender address and are all offered at once
+	// REGRESSION GUARD for be3dcb4f (was a finding): the per-sender filter only looked at SubmitLogicCall;
+	// UploadUserSmartContract messages carry the same fee-paying sender address and were all offered at
+	// once, and did not hold back a SubmitLogicCall of the same sender either
 	fx.directed(r, "uusc_same_sender", func(c *q06Case) {
 		a := c.opPut("u", 1, fx.valID[0], 4, false)
 		b := c.opPut("u", 1, fx.valID[0], 4, false)
-		c.opRelay()
-		_, _ = a, b
+		d := c.opPut("s", 1, fx.valID[0], 4, false)
+		c.opRelay() // only a
+		c.opFlag("err", a, 1)
+		c.opRelay() // a reported: b
+		c.opRemove(b)
+		c.opRelay() // d
+		_ = d
 	})
 	// scores that differ only in the last (18th) decimal through banker's rounding of 2/3 decide the
 	// rank: A = round(2/3) = 0.666666666666666667 beats B = 0.666666666666666666, although B's address
